@@ -166,7 +166,20 @@ def run(ctx, rep):
     fam = [PN] + prog.closures_of(PN)
     gd = [(f, bb) for f in fam for bb, t in f.calls() if "callee" in t and re.search(r"get_data$", callee(t))]
     pushes = [(f, bb) for f in fam for bb, t in f.calls() if "callee" in t and callee(t).endswith("Vec::<T, A>::push")]
-    chg = [(f, bi) for f in fam for bi, blk in enumerate(f.blocks) for s in blk["s"] if s[0] == "=" and s[2][0] == "use" and s[2][1][0] == "k" and s[2][1][1].get("v") is True and _is_flag_store(f, s[1], "file_changed")]
+    # the "content is missing" flag, identified by its use (not its name): the bool local handed on as `changed` in
+    # NodeAction::Node(node, <flag>)
+    flag_names = set()
+    for blk in PN.blocks:
+        for s in blk["s"]:
+            if s[0] == "=" and s[2][0] == "agg" and s[2][1][0] == "adt" and s[2][1][1].endswith("NodeAction") and s[2][1][2] == "Node" and len(s[2][2]) == 2 and op_local(s[2][2][1]) is not None:
+                l_ = op_local(s[2][2][1])
+                for _ in range(4):
+                    flag_names |= {n_.split("__")[-1] for n_ in PN.local_names().get(l_, [])}
+                    ds_ = [d_ for d_ in PN.defs().get(l_, []) if d_[0] == "stmt" and d_[4][0] == "use" and op_local(d_[4][1]) is not None]
+                    if len(ds_) != 1:
+                        break
+                    l_ = op_local(ds_[0][4][1])
+    chg = [(f, bi) for f in fam for bi, blk in enumerate(f.blocks) for s in blk["s"] if s[0] == "=" and s[2][0] == "use" and s[2][1][0] == "k" and s[2][1][1].get("v") is True and any(_is_flag_store(f, s[1], fn_) for fn_ in flag_names)]
     rep.require("C12.f", "sites", len(gd) == 1 and len(pushes) >= 1 and len(chg) >= 1, where=PN.loc(), what="process_node looks each blob up (get_data), collects kept blobs and flags missing ones")
     if len(gd) == 1 and pushes and chg:
         # push happens in the Some-closure, flag in the None-closure of map_or_else on the lookup result
@@ -206,7 +219,7 @@ def run(ctx, rep):
         oks = bool(adds)
         for a in adds:
             conds = [cond_name(PN, flow.expr_of(PN, PN.term(sw)["discr"])) for (sw, succ) in C.transitive_control_deps(PN, a)]
-            oks = oks and any(nm == "file_changed" for nm, neg in conds)
+            oks = oks and any(nm in flag_names for nm, neg in conds)
         rep.check("C12.f", "suffix-iff-changed", oks, where=PN.loc(), what="the name suffix is appended only to files with missing content")
     PT = prog.find1(r"^<rustic_core::commands::repair::snapshots::RepairState<'_, I> as rustic_core::blob::tree::modify::Visitor>::pre_process_tree$")
     cl = prog.closures_of(PT)
